@@ -164,6 +164,7 @@ class _Key:
     def __init__(s, v): s.v = v
     def __lt__(s, o): return bool(s.v < o.v)
 
+_FLT = []
 def start_states(CF):
     def from_dict(ncols, nrows):
         def mk():
@@ -173,8 +174,10 @@ def start_states(CF):
             return cf, Shadow(list(cols.keys()), [list(v) for v in cols.values()])
         return mk
     def from_file():
-        d = common.scratch("verif_c17_"); p = os.path.join(d, "t.flt")
-        open(p, "w").write("# wavelength = 0.5\n#  sc  fc  omega\n1.0 2.0 3.0\n4.5 5.5 6.5\n")
+        if not _FLT: _FLT.append(os.path.join(common.scratch("verif_c17_"), "t.flt"))       # one scratch file per process (forked workers inherit the parent's)
+        p = _FLT[0]
+        if not os.path.exists(p):
+            os.makedirs(os.path.dirname(p), exist_ok=True); open(p, "w").write("# wavelength = 0.5\n#  sc  fc  omega\n1.0 2.0 3.0\n4.5 5.5 6.5\n")
         cf = CF.columnfile(p); CONCRETE[0] = True
         return cf, Shadow(["sc", "fc", "omega"], [[1.0, 4.5], [2.0, 5.5], [3.0, 6.5]])
     def empty():
@@ -268,6 +271,7 @@ def main():
              "HDF-loaded starting states reduce to the list-of-arrays representation after reading (their IO is C18 / not applicable)")
     ck.assume("object-dtype numpy arrays behave like float arrays for indexing/assignment", "removerows is exercised in its tolerance (floating) mode")
     starts = start_states(CF)
+    dict(starts)["file 3x2"]()          # creates the shared scratch file in the parent, before workers are forked
     allbad = {}
     for sname, start in starts:
         for L in range(1, depth + 2):
